@@ -63,3 +63,24 @@ Theorem C02_group_excs_nodup_tags : forall ops g, disciplined ops = true ->
   NoDup (map fst (g_excs (groups (final step init ops) g))).
 Proof. exact group_excs_nodup_tags_ops. Qed.
 Print Assumptions C02_group_excs_nodup_tags.
+
+(* end to end under the discipline: the exceptions handed to the exception group by __aexit__ (map snd g_excs) are,
+   up to order, the body exception (at most one, never a cancellation) plus the outcomes of the members `ms`;
+   ms has no repetition, consists of members whose task_done ran with a non-cancellation exception, and contains
+   every such member of the group unless its exception went to the start future of start() *)
+Theorem C02_group_result_composition : forall ops g, disciplined ops = true ->
+  let s := final step init ops in
+  let L := g_excs (groups s g) in
+  let body := map snd (filter (fun x => Nat.eqb (fst x) 0) L) in
+  let ms := filter (fun x => negb (Nat.eqb x 0)) (map fst L) in
+  let exn_of := fun t => match k_done (tasks s t) with Some (OExc e) => e | Some (OCanc e) => e | _ => ERuntime end in
+  Permutation (map snd L) (body ++ map exn_of ms) /\
+  Permutation (flat_map leaves (map snd L)) (flat_map leaves body ++ flat_map (fun t => leaves (exn_of t)) ms) /\
+  length body <= 1 /\ (forall e, In e body -> is_cancel e = false) /\
+  NoDup ms /\
+  (forall t, In t ms -> k_group (tasks s t) = Some g /\ k_tdran (tasks s t) = true /\
+                        exists e, k_done (tasks s t) = Some (OExc e) /\ is_cancel e = false) /\
+  (forall t e, In t (g_ever (groups s g)) -> k_tdran (tasks s t) = true -> k_done (tasks s t) = Some (OExc e) ->
+     In t ms \/ exists f, k_startfut (tasks s t) = Some f /\ f_st (futs s f) = FExc e).
+Proof. exact group_result_composition_ops. Qed.
+Print Assumptions C02_group_result_composition.
